@@ -7,7 +7,7 @@
 //   init n | end
 //   new s cls kind val   (kind: 0 plain member, 1 container member, 2 no settable member; must match the class table)
 //   | set s d val | clone s s1 d1 | copy s s1 d1 | movector s s1 d1
-//   div s s1 d1 s2 d2 | diveq s1 d1 s2 d2 | assign s1 d1 s2 d2 | massign s1 d1 s2 d2
+//   div s s1 d1 s2 d2 | diveq s1 d1 s2 d2 | assign s1 d1 s2 d2 | massign s1 d1 s2 d2 | assignraw s1 d1 s2 d2 (unguarded)
 //   setinner s1 d1 s2 | setinnerref s1 d1 s2 d2 | setnull s1 d1 | release s s1 d1 | del s
 //   pknew s s1 d1 | pkown s s2 | pkptr s s2 | pkempty s | pkcopy s p | pkassign p q | pkmove s p
 //   pkmassign p q | pkrelease s p | pkdiv p s2 d2
@@ -361,13 +361,14 @@ static std::string forest_step(const std::vector<std::string>& w) {
             PDU* b = resolve(w[3], w[4]);
             *a /= *b;
             named.insert(slot_idx(w[1])); named.insert(slot_idx(w[3]));
-        } else if (op == "assign") {
+        } else if (op == "assign" || op == "assignraw") {
             NEED(5);
             PDU* a = resolve(w[1], w[2]);
             PDU* b = resolve(w[3], w[4]);
             size_t sa = slot_idx(w[1]), sb = slot_idx(w[3]);
             // assigning from a layer the target owns destroys the source first: outside WellFormedProgram
-            if (sa == sb && std::stoul(w[4]) > std::stoul(w[2])) throw Ill();
+            // (`assignraw` skips the guard: it exists only to reproduce the recorded finding KF-C12-3)
+            if (op == "assign" && sa == sb && std::stoul(w[4]) > std::stoul(w[2])) throw Ill();
             int da = desc_of(a), db = desc_of(b);
             if (da == db) g_desc[da].assign(a, b);
             else a->PDU::operator=(*b);                       // base-class (slicing) assignment
